@@ -103,7 +103,8 @@ func c13Shapes(thorough bool) (all []logShape, chainAlphabet []logShape) {
 			for mn, m := range metas {
 				m := m
 				name := fmt.Sprintf("date=%s ik=%s meta=%s", dn, kn, mn)
-				for _, acc := range []string{"a", "users:001", "ünï"} {
+				// (a bulk element or a DELETE path carries any string as the address: some need escaping in JSON)
+				for _, acc := range c13Addresses {
 					acc := acc
 					add("SET_METADATA account="+acc+" "+name, func() *ledger.Log {
 						return ledger.NewSetMetadataLog(d, ledger.SetMetadataLogPayload{TargetType: ledger.MetaTargetTypeAccount, TargetID: acc, Metadata: m}).WithIdempotencyKey(k)
@@ -120,9 +121,12 @@ func c13Shapes(thorough bool) (all []logShape, chainAlphabet []logShape) {
 			for _, mk := range []string{"k", "clé", "", "raw\xffbytes"} {
 				mk := mk
 				name := fmt.Sprintf("date=%s ik=%s key=%q", dn, kn, mk)
-				add("DELETE_METADATA account "+name, func() *ledger.Log {
-					return ledger.NewDeleteMetadataLog(d, ledger.DeleteMetadataLogPayload{TargetType: ledger.MetaTargetTypeAccount, TargetID: "users:001", Key: mk}).WithIdempotencyKey(k)
-				})
+				for _, acc := range c13Addresses {
+					acc := acc
+					add("DELETE_METADATA account="+acc+" "+name, func() *ledger.Log {
+						return ledger.NewDeleteMetadataLog(d, ledger.DeleteMetadataLogPayload{TargetType: ledger.MetaTargetTypeAccount, TargetID: acc, Key: mk}).WithIdempotencyKey(k)
+					})
+				}
 				for tn, id := range txids {
 					id := id
 					add("DELETE_METADATA tx="+tn+" "+name, func() *ledger.Log {
@@ -168,6 +172,8 @@ func c13Shapes(thorough bool) (all []logShape, chainAlphabet []logShape) {
 	}
 	return
 }
+
+var c13Addresses = []string{"a", "users:001", "ünï", "a<b&c>", "users:\"bob\"", "back\\slash", "line\u2028sep", "tab\there"}
 
 // roundTrip checks one chained log against both read-back paths. prev may be nil.
 func c13RoundTrip(cl *ledger.ChainedLog, prev *ledger.ChainedLog) (kind, why string) {
